@@ -4,7 +4,7 @@
 Regenerates, from rs/anda_object_store/src/{sidecar,lib,encryption}.rs, the order-like parts of the
 wrapper model:
 
-  * `update_meta_with`: fresh read -> closure `f` -> metadata put (pointer) -> best-effort reclaim
+  * `update_meta_with`: fresh read -> the caller's closure -> metadata put (pointer) -> best-effort reclaim
   * per wrapper (MetaStore / EncryptedStore) and per operation (put_opts, multipart complete,
     copy_opts): where the payload write sits relative to the pointer switch and the reclaim
     -> `putOrder`, `completeOrder`, `copyOrder : Wrapper -> List CommitPhase`
@@ -15,19 +15,38 @@ wrapper model:
     re-read per candidate or memoised per key                        -> `gcRecheckPerCandidate`
   * the in-flight registration: before the payload write, and bound to a named guard that lives to
     the end of the call (not `let _ =`)                              -> `trackBeforePayload`, `guardHeld`
-  * the e_tag recipes: is the per-commit seed (generation / base nonce) hashed in?
+  * the e_tag recipes: is the per-commit seed (generation / random nonce) hashed in?
                                                                      -> `putTagSeeded`, `completeTagSeeded`, `copyTagSeeded`
+  * `put_opts`: no successful exit of the commit closure before the payload write (every put that
+    succeeds mints a commit)                                         -> `putFreshCommit`
   * `get_opts`: preconditions evaluated inside the stale-pointer retry loop            -> `getRecheckInRetry`
 
-Works on a comment-stripped copy and keys on call names and nesting, not on layout. A marker that is
-missing or ambiguous is an error (exit 1 with a one-line reason), never a default.
+How the source is read (robust against behaviour-preserving rewrites, strict about meaning):
+
+  * comments are stripped, string contents blanked, the trailing test module is cut;
+  * a function is found by its NAME in its file (exactly one definition), not by its impl header;
+  * calls of functions defined in the same file (`self.f(..)`, `Self::f(..)`, `f(..)`), and of free
+    functions of the sibling files, are expanded in place: the call text stays, the callee's body
+    follows it between the marks U+27E6 / U+27E7 with its parameters renamed apart and bound to the
+    arguments (`let p__3 = <arg>;`). A marker scan therefore sees the same effects in the same order
+    whether or not a block was extracted into a private helper. Functions that read the metadata
+    cache (`meta_cache.get(..)`: get_meta, listing_entry) are never expanded: a read through them is
+    not a backend read;
+  * markers are names of what is CALLED (methods, functions, fields), their nesting and their
+    first-occurrence order. Names of locals, closure parameters and loop variables are never
+    matched literally; where a value has to be followed (the generation into the hasher, the
+    closure parameter to its call, a path local to the function that made it) this is done through
+    the `let` bindings of the text;
+  * a marker that is missing or ambiguous is an error (exit 1 with a one-line reason), never a default.
 """
 import os
 import re
 import sys
 
 sys.path.insert(0, os.path.dirname(os.path.abspath(__file__)))
-from common import strip_rust_comments, write_gen  # noqa: E402
+from common import strip_rust_comments, cut_tests, write_gen  # noqa: E402
+
+L, R = "⟦", "⟧"     # delimit an expanded callee body; transparent for brace depth
 
 
 def die(msg):
@@ -35,100 +54,424 @@ def die(msg):
     sys.exit(1)
 
 
-def read(repo, rel):
-    p = os.path.join(repo, rel)
-    if not os.path.exists(p):
-        die(f"source file {rel} not found")
-    return strip_rust_comments(open(p, encoding="utf-8").read())
+# ------------------------------------------------------------------------------------------------
+# lexical helpers
+# ------------------------------------------------------------------------------------------------
+
+OPEN, CLOSE = "([{" + L, ")]}" + R
 
 
-def match_close(src, i, open_c="{", close_c="}"):
-    assert src[i] == open_c
+def match_close(src, i):
+    """index of the bracket closing the one at src[i] (any of ( [ { or the expansion mark)"""
+    o = src[i]
+    c = CLOSE[OPEN.index(o)]
     depth = 0
     for j in range(i, len(src)):
-        if src[j] == open_c:
+        if src[j] == o:
             depth += 1
-        elif src[j] == close_c:
+        elif src[j] == c:
             depth -= 1
             if depth == 0:
                 return j
-    die("unbalanced braces")
+    die("unbalanced brackets")
 
 
-def block_after(src, header_re, what):
-    ms = list(re.finditer(header_re, src))
-    if len(ms) != 1:
-        die(f"expected exactly one `{what}`, found {len(ms)}")
-    i = src.index("{", ms[0].end() - 1)
-    return src[i + 1:match_close(src, i)]
+def split_top(text, sep=","):
+    """split at top-level separators; brackets ( [ { and the expansion marks nest; the parameter
+    list `|a, b|` of a closure is kept together"""
+    out, depth, cur, i, n = [], 0, [], 0, len(text)
+    at_start = True
+    while i < n:
+        ch = text[i]
+        if at_start and depth == 0:
+            m = re.match(r"\s*(?:async\s+)?(?:move\s+)?\|", text[i:])
+            if m:
+                j = text.find("|", i + m.end())
+                if j < 0:
+                    j = n - 1
+                cur.append(text[i:j + 1])
+                i = j + 1
+                at_start = False
+                continue
+        if not ch.isspace():
+            at_start = False
+        if ch in OPEN:
+            depth += 1
+        elif ch in CLOSE:
+            depth -= 1
+        if ch == sep and depth == 0:
+            out.append("".join(cur))
+            cur = []
+            at_start = True
+        else:
+            cur.append(ch)
+        i += 1
+    if "".join(cur).strip():
+        out.append("".join(cur))
+    return out
 
 
-def fn_in(block, name, what):
-    ms = list(re.finditer(r"\bfn\s+" + re.escape(name) + r"\b", block))
-    if len(ms) != 1:
-        die(f"expected exactly one `fn {name}` in {what}, found {len(ms)}")
-    # skip the signature: the body starts at the first '{' after the closing ')' of the parameter
-    # list and an optional return type / where clause
-    i = block.index("(", ms[0].end())
-    j = match_close(block, i, "(", ")")
-    k = block.index("{", j)
-    return block[k + 1:match_close(block, k)]
+def split_params(text):
+    """split a parameter list at top-level commas (angle brackets of types nest as well)"""
+    out, depth, cur, i, n = [], 0, [], 0, len(text)
+    while i < n:
+        ch = text[i]
+        if text.startswith("->", i):
+            cur.append("->")
+            i += 2
+            continue
+        if ch in "([{<":
+            depth += 1
+        elif ch in ")]}>":
+            depth -= 1
+        if ch == "," and depth == 0:
+            out.append("".join(cur))
+            cur = []
+        else:
+            cur.append(ch)
+        i += 1
+    if "".join(cur).strip():
+        out.append("".join(cur))
+    return out
 
 
-def pos(body, pattern, what, first=True, required=True):
-    ms = list(re.finditer(pattern, body))
-    if not ms:
+def brace_depth(text):
+    """net depth of `{`; the expansion marks do not count"""
+    return text.count("{") - text.count("}")
+
+
+# ------------------------------------------------------------------------------------------------
+# source files, function table, call expansion
+# ------------------------------------------------------------------------------------------------
+
+class Fn:
+    def __init__(self, name, sig, params, is_method, body):
+        self.name, self.sig, self.params, self.is_method, self.body = name, sig, params, is_method, body
+
+
+class File:
+    def __init__(self, key, text):
+        self.key, self.text, self.fns = key, text, {}
+        for m in re.finditer(r"\bfn\s+([A-Za-z_]\w*)", text):
+            i = m.end()
+            while i < len(text) and text[i].isspace():
+                i += 1
+            if i < len(text) and text[i] == "<":            # generics
+                depth = 0
+                while i < len(text):
+                    if text.startswith("->", i):
+                        i += 2
+                        continue
+                    if text[i] == "<":
+                        depth += 1
+                    elif text[i] == ">":
+                        depth -= 1
+                        if depth == 0:
+                            i += 1
+                            break
+                    i += 1
+                while i < len(text) and text[i].isspace():
+                    i += 1
+            if i >= len(text) or text[i] != "(":
+                continue
+            k = match_close(text, i)
+            j = k + 1
+            while j < len(text) and text[j] not in "{;":
+                j += 1
+            if j >= len(text) or text[j] == ";":
+                continue                                    # declaration without body
+            body = text[j + 1:match_close(text, j)]
+            params, is_method = [], False
+            for piece in split_params(text[i + 1:k]):
+                piece = piece.strip()
+                if re.fullmatch(r"&?\s*(?:'\w+\s+)?(?:mut\s+)?self(?:\s*:.*)?", piece, re.S):
+                    is_method = True
+                    continue
+                pm = re.match(r"(?:mut\s+)?([a-z_]\w*)\s*:\s*(.*)$", piece, re.S)
+                params.append((pm.group(1), pm.group(2).strip()) if pm else (None, piece))
+            self.fns.setdefault(m.group(1), []).append(Fn(m.group(1), text[m.start():j], params, is_method, body))
+
+    def fn(self, name):
+        fs = self.fns.get(name, [])
+        if len(fs) != 1:
+            die(f"expected exactly one `fn {name}` in {self.key}.rs, found {len(fs)}")
+        return fs[0]
+
+
+FILES = {}
+_counter = [0]
+CALL = re.compile(r"(?:(\bself\s*\.\s*|\bSelf\s*::\s*)|(?<![\w.:]))([A-Za-z_]\w*)\s*(?:::\s*<[^>()]*>\s*)?\(")
+
+
+def rename_params(body, names, k):
+    for p in names:
+        def sub(m, p=p):
+            before = body[:m.start()].rstrip()[-1:]
+            if re.match(r"\s*:(?!:)", body[m.end():]) and before in "{,":
+                return m.group(0)                           # a field name in a struct literal
+            return f"{p}__{k}"
+        body = re.sub(r"(?<![\w.])" + re.escape(p) + r"\b", sub, body)
+    return body
+
+
+def resolve(file, name, prefixed):
+    """the callee a call refers to, or None when it is not ours / ambiguous / must stay opaque"""
+    cands = file.fns.get(name, [])
+    f = None
+    if len(cands) == 1 and (prefixed or not cands[0].is_method):
+        f = cands[0]
+        home = file
+    elif not cands and not prefixed:
+        hits = [(o, o.fns[name][0]) for o in FILES.values() if o is not file and len(o.fns.get(name, [])) == 1
+                and not o.fns[name][0].is_method]
+        if len(hits) == 1:
+            home, f = hits[0]
+    if f is None or re.search(r"\bmeta_cache\s*\.\s*get\s*\(", f.body):
+        return None, None                                   # a read through the cache is not a backend read
+    return home, f
+
+
+def expand(file, text, stack=(), max_depth=6):
+    """text with the calls of our own functions expanded (see the module docstring)"""
+    out, i = [], 0
+    while True:
+        m = CALL.search(text, i)
+        if not m:
+            out.append(text[i:])
+            break
+        name = m.group(2)
+        home, f = (None, None)
+        if name not in stack and len(stack) < max_depth and not re.search(r"\bfn\s+$", text[:m.start(2)]):
+            home, f = resolve(file, name, bool(m.group(1)))
+        if f is None:
+            out.append(text[i:m.end()])
+            i = m.end()
+            continue
+        close = match_close(text, m.end() - 1)
+        args_text = expand(file, text[m.end():close], stack, max_depth)
+        _counter[0] += 1
+        k = _counter[0]
+        names = [p for p, _ in f.params if p]
+        body = rename_params(f.body, names, k)
+        args = split_top(args_text)
+        binds = ""
+        if len(args) == len(f.params):
+            binds = "".join(f" let {p}__{k} = {a.strip()};" for (p, _), a in zip(f.params, args) if p)
+        inner = expand(home, body, stack + (name,), max_depth)
+        out.append(text[i:m.end()] + args_text + ")" + L + binds + " " + inner + R)
+        i = close + 1
+    return "".join(out)
+
+
+def body_of(file, name):
+    return expand(file, file.fn(name).body, (name,))
+
+
+# ------------------------------------------------------------------------------------------------
+# `let` bindings: following a value by the names it is bound to
+# ------------------------------------------------------------------------------------------------
+
+NOT_VARS = {"mut", "ref", "_", "box"}
+
+
+def lets(text):
+    """(position, [names bound], initialiser text, position of '=', end) of every `let` / `if let` / `while let`"""
+    out = []
+    for m in re.finditer(r"\blet\s+", text):
+        i, depth, eq = m.end(), 0, None
+        while i < len(text):
+            ch = text[i]
+            if ch in OPEN:
+                depth += 1
+            elif ch in CLOSE:
+                depth -= 1
+                if depth < 0:
+                    break
+            elif ch == ";" and depth == 0:
+                break
+            elif ch == "=" and depth == 0 and text[i + 1:i + 2] not in ("=", ">") and text[i - 1] not in "=!<>":
+                eq = i
+                break
+            i += 1
+        if eq is None:
+            continue
+        pat = text[m.end():eq]
+        # cut a type annotation: the first top-level single ':'
+        d = 0
+        for j, ch in enumerate(pat):
+            if ch in OPEN or ch == "<":
+                d += 1
+            elif ch in CLOSE or ch == ">":
+                d -= 1
+            elif ch == ":" and d == 0 and pat[j + 1:j + 2] != ":" and pat[j - 1:j] != ":":
+                pat = pat[:j]
+                break
+        names = [x for x in re.findall(r"(?<![\w:.])[a-z_]\w*\b(?!\s*(?:::|\(|\{))", pat) if x not in NOT_VARS]
+        conditional = re.search(r"(?:\bif|\bwhile|&&)\s*$", text[:m.start()]) is not None
+        i, depth = eq + 1, 0
+        while i < len(text):
+            ch = text[i]
+            if ch in OPEN:
+                if ch == "{" and depth == 0 and conditional:
+                    break
+                depth += 1
+            elif ch in CLOSE:
+                depth -= 1
+                if depth < 0:
+                    break
+            elif ch == ";" and depth == 0:
+                break
+            elif conditional and depth == 0 and text.startswith("&&", i):
+                break
+            i += 1
+        out.append((m.start(), names, text[eq + 1:i], eq, i))
+    return out
+
+
+def mentions(expr, names):
+    return any(re.search(r"(?<![\w.])" + re.escape(n) + r"\b", expr) for n in names)
+
+
+def tainted(text, source_res, seeds=()):
+    """names whose value is computed from a call matching one of source_res (or from the seeds), through
+    any chain of `let` bindings (flow-insensitive)"""
+    ls = lets(text)
+    t = set(seeds)
+    changed = True
+    while changed:
+        changed = False
+        for _, names, expr, _, _ in ls:
+            if set(names) <= t:
+                continue
+            if any(re.search(s, expr) for s in source_res) or mentions(expr, t):
+                t |= set(names)
+                changed = True
+    return t
+
+
+def aliases(text, name):
+    """names that are the value `name` itself, moved around: `let mut f = Some(f)`, `let g = f.take()..`"""
+    ls = lets(text)
+    t = {name}
+    changed = True
+    while changed:
+        changed = False
+        for _, names, expr, _, _ in ls:
+            if len(names) != 1 or names[0] in t:
+                continue
+            m = re.match(r"\s*(?:Some\s*\(\s*)?(?:&\s*(?:mut\s+)?)?([a-z_]\w*)\b", expr)
+            if m and m.group(1) in t:
+                t.add(names[0])
+                changed = True
+    return t
+
+
+def calls(text, method):
+    """[(start, index of '(')] of the method calls `.method(` in text"""
+    return [(m.start(), m.end() - 1) for m in re.finditer(r"\.\s*" + method + r"\s*\(", text)]
+
+
+def first_arg(text, open_paren):
+    args = split_top(text[open_paren + 1:match_close(text, open_paren)])
+    return args[0].strip() if args else ""
+
+
+def made_by(text, expr, before, steps=5):
+    """names of the functions / methods / fields that produce the value of expr (a call argument):
+    those in expr itself and, when expr is a plain local, those of the `let` that bound it last"""
+    names = set(re.findall(r"\b([a-z_]\w*)\s*\(", expr)) | set(re.findall(r"\.\s*([a-z_]\w*)\b", expr))
+    m = re.fullmatch(r"\s*(?:&\s*)?(?:mut\s+)?\*?\s*([a-z_]\w*)\s*(?:\.\s*(?:clone|as_ref|to_owned|borrow)\s*\(\s*\))?\s*", expr)
+    if m and steps > 0:
+        prev = [(p, e) for p, ns, e, _, _ in lets(text[:before]) if m.group(1) in ns]
+        if prev:
+            names |= made_by(text, prev[-1][1], prev[-1][0], steps - 1)
+    return names
+
+
+def enclosing_loop(text, pos, what):
+    """(start, end) of the body of the innermost for / while / loop whose block contains pos"""
+    depth = 0
+    j = pos - 1
+    while j >= 0:
+        ch = text[j]
+        if ch == "}":
+            depth += 1
+        elif ch == "{":
+            if depth == 0:
+                if re.search(r"(?:\bloop|\bfor\b[^;{}]*|\bwhile\b[^;{}]*)\s*$", text[:j]):
+                    return j + 1, match_close(text, j)
+            else:
+                depth -= 1
+        j -= 1
+    die(f"{what} is not inside a loop")
+
+
+def pos(body, pattern, what, required=True):
+    m = re.search(pattern, body)
+    if not m:
         if required:
             die(f"marker `{what}` not found")
         return None
-    return ms[0].start() if first else ms[-1].start()
-
-
-def all_pos(body, pattern):
-    return [m.start() for m in re.finditer(pattern, body)]
-
-
-def closure_of_call(body, call_re, what):
-    """The text of the closure argument `async |..| { ... }` of the (single) call matched by call_re,
-    together with (start, end) of the whole call expression."""
-    ms = list(re.finditer(call_re, body))
-    if len(ms) != 1:
-        die(f"expected exactly one call `{what}`, found {len(ms)}")
-    i = body.index("(", ms[0].end() - 1)
-    j = match_close(body, i, "(", ")")
-    args = body[i + 1:j]
-    m = re.search(r"async\s*(?:move\s*)?\|[^|]*\|\s*\{", args)
-    if not m:
-        die(f"call `{what}` has no async closure argument")
-    k = args.index("{", m.start())
-    return args[k + 1:match_close(args, k)], ms[0].start(), j
+    return m.start()
 
 
 def order_names(pairs, what):
-    """pairs: list of (name, position); positions must be distinct"""
     ps = [p for _, p in pairs]
     if len(set(ps)) != len(ps):
         die(f"ambiguous order in {what}")
     return [n for n, _ in sorted(pairs, key=lambda x: x[1])]
 
 
-def commit_order(fn_body, payload_re, payload_what, what, payload_in_closure=True, payload_before_call_re=None):
+# ------------------------------------------------------------------------------------------------
+# commits through update_meta_with
+# ------------------------------------------------------------------------------------------------
+
+def closure_of_call(body, what):
+    """(closure start, closure end, call start, call end) of the single `update_meta_with(.., <closure>)`
+    call of body. The closure is the `async |..| { .. }` argument, or a local bound to one."""
+    ms = list(re.finditer(r"\bupdate_meta_with\s*\(", body))
+    if len(ms) != 1:
+        die(f"expected exactly one call of update_meta_with in {what}, found {len(ms)}")
+    i = ms[0].end() - 1
+    j = match_close(body, i)
+    args = body[i + 1:j]
+    m = re.search(r"async\s*(?:move\s*)?\|[^|]*\|\s*\{", args)
+    if m:
+        k = i + 1 + args.index("{", m.start())
+        return k + 1, match_close(body, k), ms[0].start(), j
+    parts = split_top(args)
+    last = parts[-1].strip() if parts else ""
+    if re.fullmatch(r"[a-z_]\w*", last):
+        for p, names, expr, eq, _ in reversed(lets(body[:ms[0].start()])):
+            cm = re.match(r"\s*async\s*(?:move\s*)?\|[^|]*\|\s*\{", expr)
+            if last in names and cm:
+                k = eq + 1 + cm.end() - 1
+                return k + 1, match_close(body, k), ms[0].start(), j
+    die(f"the update_meta_with call of {what} has no async closure argument")
+
+
+def commit_order(um_order, fn_body, payload_sites, payload_what, what):
     """Order of payload / pointer / reclaim for a function that commits through update_meta_with.
     Positions are taken on a virtual time line: everything textually before the update_meta_with call
-    is at time 0..; the closure body runs at update_meta_with's `f(` position; pointer and reclaim
-    follow in update_meta_with's own order (UM)."""
-    closure, call_start, call_end = closure_of_call(fn_body, r"\bupdate_meta_with\s*\(", f"update_meta_with in {what}")
-    outside_before = fn_body[:call_start]
-    outside_after = fn_body[call_end:]
-    in_closure = re.search(payload_re, closure) is not None
-    before = re.search(payload_before_call_re or payload_re, outside_before) is not None
-    after = re.search(payload_re, outside_after) is not None
-    if sum([in_closure, before, after]) != 1:
-        die(f"payload write `{payload_what}` of {what}: expected exactly one site (closure/before/after), found closure={in_closure} before={before} after={after}")
+    comes first; the closure body runs where update_meta_with calls its closure; pointer and reclaim
+    follow in update_meta_with's own order. Returns (order, closure start, closure end)."""
+    c0, c1, call_start, call_end = closure_of_call(fn_body, what)
+    in_closure = before = after = 0
+    for p in payload_sites:
+        if c0 <= p < c1:
+            in_closure += 1
+        elif p < call_start:
+            before += 1
+        elif p > call_end:
+            after += 1
+        else:
+            die(f"{what}: the payload write `{payload_what}` is an argument of update_meta_with but outside its closure")
+    if in_closure + before + after != 1:
+        die(f"payload write `{payload_what}` of {what}: expected exactly one site, found closure={in_closure} before={before} after={after}")
     line = []
     if before:
         line.append("payload")
-    for ph in UM:  # UM is the order inside update_meta_with: subset of callF, pointer, reclaim
+    for ph in um_order:
         if ph == "callF":
             if in_closure:
                 line.append("payload")
@@ -136,7 +479,47 @@ def commit_order(fn_body, payload_re, payload_what, what, payload_in_closure=Tru
             line.append(ph)
     if after:
         line.append("payload")
-    return line
+    return line, c0, c1
+
+
+def strip_expansions(text):
+    """text without the expanded callee bodies"""
+    out, depth = [], 0
+    for ch in text:
+        if ch == L:
+            depth += 1
+        elif ch == R:
+            depth -= 1
+        elif depth == 0:
+            out.append(ch)
+    return "".join(out)
+
+
+def guard_of(body, what):
+    """(position of the registration, names bound, held): the statement of the function itself (not of
+    an expanded helper) that receives the in-flight guard; held = bound to names (no bare `_`) that
+    are not dropped explicitly"""
+    m = re.search(r"\btrack_in_flight\s*\(", body)
+    if not m:
+        die(f"{what}: no in-flight registration (track_in_flight)")
+    p = m.start()
+    depth, j, top = 0, p - 1, p
+    while j >= 0:                                             # leave the expanded callee bodies
+        if body[j] == R:
+            depth += 1
+        elif body[j] == L:
+            if depth == 0:
+                top = j
+            else:
+                depth -= 1
+        j -= 1
+    bound = [(q, names, eq) for q, names, _, eq, end in lets(body) if eq < top < end]
+    if not bound:
+        return p, [], False                                   # registered and dropped at once
+    q, names, eq = bound[-1]
+    held = bool(names) and not re.search(r"(?<!\w)_(?!\w)", body[q + 3:eq])
+    held = held and not any(re.search(r"\bdrop\s*\(\s*" + re.escape(n) + r"\s*\)", body) for n in names)
+    return p, names, held
 
 
 def lean_list(xs, prefix="."):
@@ -147,168 +530,229 @@ def lean_bool(b):
     return "true" if b else "false"
 
 
+SEED_SOURCES = [r"\bnew_generation\s*\(", r"\brand_bytes\s*(?:::\s*<[^>]*>\s*)?\("]
+
+
+def hashes_seed(text, seeds=(), sources=SEED_SOURCES):
+    """some `.update(..)` of a hasher is fed a value computed from the per-commit seed"""
+    t = tainted(text, sources, seeds)
+    for _, op in calls(text, "update"):
+        if mentions(text[op + 1:match_close(text, op)], t):
+            return True
+    return False
+
+
 def main():
     if len(sys.argv) != 3:
         die("usage: c07_sidecar_order.py <repo_root> <gen_dir>")
     repo, gen_dir = sys.argv[1], sys.argv[2]
-    sidecar = read(repo, "rs/anda_object_store/src/sidecar.rs")
-    lib = read(repo, "rs/anda_object_store/src/lib.rs")
-    enc = read(repo, "rs/anda_object_store/src/encryption.rs")
-
-    side_impl = block_after(sidecar, r"impl\s*<\s*T\s*:\s*ObjectStore\s*,\s*M\s*:\s*SidecarMeta\s*>\s*SidecarStore\s*<\s*T\s*,\s*M\s*>\s*\{", "impl SidecarStore")
+    for key in ("sidecar", "lib", "encryption"):
+        p = os.path.join(repo, f"rs/anda_object_store/src/{key}.rs")
+        if not os.path.exists(p):
+            die(f"source file rs/anda_object_store/src/{key}.rs not found")
+        FILES[key] = File(key, cut_tests(strip_rust_comments(open(p, encoding="utf-8").read())))
+    side, lib, enc = FILES["sidecar"], FILES["lib"], FILES["encryption"]
 
     # ---- update_meta_with ------------------------------------------------------------------
-    um = fn_in(side_impl, "update_meta_with", "impl SidecarStore")
-    read_p = pos(um, r"\bfetch_meta_bytes\s*\(", "fetch_meta_bytes in update_meta_with")
-    f_ps = all_pos(um, r"\bf\s*\(\s*(?:Some|None)")
+    umf = side.fn("update_meta_with")
+    um = body_of(side, "update_meta_with")
+    fparams = [p for p, ty in umf.params if p and (re.match(r"impl\b.*Fn", ty, re.S) or (
+        re.fullmatch(r"[A-Z]\w*", ty) and re.search(r"\b" + ty + r"\s*:\s*[^,{]*Fn(?:Once|Mut)?\s*\(", umf.sig)))]
+    if len(fparams) != 1:
+        die(f"update_meta_with: expected exactly one closure parameter (`F: AsyncFnOnce(..)`), found {len(fparams)}")
+    fnames = aliases(um, fparams[0])
+    f_ps = [m.start() for m in re.finditer(r"(?<![\w.])(?:" + "|".join(map(re.escape, sorted(fnames))) + r")\s*\(", um)]
     if not f_ps:
-        die("update_meta_with never calls its closure `f(Some(..))` / `f(None)`")
-    ptr_ms = [m for m in re.finditer(r"\.put_opts\s*\(\s*&\s*meta_path\b", um)]
-    if len(ptr_ms) != 1:
-        die(f"update_meta_with: expected exactly one `.put_opts(&meta_path, ..)`, found {len(ptr_ms)}")
-    ptr_p = ptr_ms[0].start()
-    rec_p = pos(um, r"\bbest_effort_delete\s*\(", "best_effort_delete in update_meta_with")
+        die("update_meta_with never calls its closure parameter")
+    read_p = pos(um, r"\b(?:fetch_meta_bytes|load_meta)\s*\(", "fetch_meta_bytes in update_meta_with")
+    ptr_ps = [s for s, op in calls(um, "put_opts") if "meta_path" in made_by(um, first_arg(um, op), s)]
+    others = [s for s, op in calls(um, "put_opts") if "meta_path" not in made_by(um, first_arg(um, op), s)]
+    if len(ptr_ps) != 1 or others:
+        die(f"update_meta_with: expected exactly one put of the metadata document (`.put_opts(<meta_path(..)>, ..)`), found {len(ptr_ps)} and {len(others)} other put(s)")
+    ptr_p = ptr_ps[0]
+    rec_p = pos(um, r"\bbest_effort_delete\s*\(|\.\s*delete\s*\(", "best_effort_delete / store.delete in update_meta_with")
     if not (all(p < ptr_p for p in f_ps) or all(p > ptr_p for p in f_ps)):
         die("update_meta_with: closure calls on both sides of the metadata put")
     if not read_p < min(f_ps):
         die("update_meta_with: the fresh metadata read no longer precedes the closure")
-    global UM
-    UM = order_names([("callF", f_ps[0]), ("pointer", ptr_p), ("reclaim", rec_p)], "update_meta_with")
+    um_order = order_names([("callF", f_ps[0]), ("pointer", ptr_p), ("reclaim", rec_p)], "update_meta_with")
     # the reclaimed path must be guarded by the `old != new payload path` comparison
-    if not re.search(r"old\s*!=\s*self\s*\.\s*payload_path\s*\(", um):
-        die("update_meta_with: the `old != payload_path(new)` guard before the reclaim is gone")
+    if not re.search(r"!=\s*(?:&\s*)?self\s*\.\s*payload_path\s*\(|\bpayload_path\s*\([^;{}]*\)\s*!=", um):
+        die("update_meta_with: the `<replaced path> != payload_path(<new>)` guard before the reclaim is gone")
 
     # ---- delete_object ---------------------------------------------------------------------
-    do = fn_in(side_impl, "delete_object", "impl SidecarStore")
-    dptr = pos(do, r"\.delete\s*\(\s*&\s*self\s*\.\s*meta_path\s*\(", "delete(&self.meta_path(..)) in delete_object")
-    dpay = pos(do, r"\bbest_effort_delete\s*\(", "best_effort_delete in delete_object")
-    delete_order = order_names([("pointer", dptr), ("payload", dpay)], "delete_object")
+    do = body_of(side, "delete_object")
+    dels = [(s, "meta_path" in made_by(do, first_arg(do, op), s)) for s, op in calls(do, "delete")]
+    dptr = [s for s, is_ptr in dels if is_ptr]
+    dpay = [s for s, is_ptr in dels if not is_ptr]
+    if not dptr:
+        die("delete_object: no delete of the commit point (`.delete(<meta_path(..)>)`)")
+    if not dpay:
+        die("delete_object: no delete of the payload (best_effort_delete / `.delete(<payload path>)`)")
+    delete_order = order_names([("pointer", min(dptr)), ("payload", min(dpay))], "delete_object")
 
     # ---- copy_payload ----------------------------------------------------------------------
-    cp = fn_in(side_impl, "copy_payload", "impl SidecarStore")
+    cp = body_of(side, "copy_payload")
     cp_track = pos(cp, r"\btrack_in_flight\s*\(", "track_in_flight in copy_payload")
-    cp_copy = pos(cp, r"\.copy_opts\s*\(", "store.copy_opts in copy_payload")
+    cp_copy = pos(cp, r"\.\s*copy_opts\s*\(", "store.copy_opts in copy_payload")
     cp_gen = pos(cp, r"\bnew_generation\s*\(", "new_generation in copy_payload")
     copy_track_first = cp_gen < cp_track < cp_copy
+    # which component of the returned tuple is the generation, which the guard
+    gen_vars = tainted(cp, [r"\bnew_generation\s*\("]) - tainted(cp, [r"\btrack_in_flight\s*\(", r"\bgeneration_path\s*\("])
+    guard_vars = {n for _, ns, e, _, _ in lets(cp) if re.search(r"\btrack_in_flight\s*\(", e) for n in ns}
+    rets = [split_top(m.group(1)) for m in re.finditer(r"\bOk\s*\(\s*\(([^()]*)\)\s*\)", cp)]
+    rets = [[x.strip() for x in r] for r in rets if len(r) >= 2]
+    if not rets or any(len(r) != len(rets[0]) for r in rets):
+        die("copy_payload: cannot find the returned tuple `Ok((src, generation, guard))`")
+    gi = {i for r in rets for i, x in enumerate(r) if x in gen_vars}
+    hi = {i for r in rets for i, x in enumerate(r) if x in guard_vars}
+    if len(gi) != 1 or len(hi) != 1:
+        die("copy_payload: cannot tell which component of the returned tuple is the generation / the in-flight guard")
+    cp_gen_i, cp_guard_i, cp_arity = gi.pop(), hi.pop(), len(rets[0])
 
     # ---- collect_garbage -------------------------------------------------------------------
-    gc = fn_in(side_impl, "collect_garbage", "impl SidecarStore")
-    mark = pos(gc, r"\.list\s*\(\s*Some\s*\(\s*&\s*self\s*\.\s*meta_prefix", "list(meta_prefix) in collect_garbage")
-    sweep = pos(gc, r"\.list\s*\(\s*Some\s*\(\s*&\s*self\s*\.\s*gen_prefix", "list(gen_prefix) in collect_garbage")
-    floor = pos(gc, r"\bfloor_ms\b", "floor_ms in collect_garbage")
-    # the per-candidate loop: `for (..) in candidates { in-flight check; re-read; delete }`
-    lm = list(re.finditer(r"\bfor\s*\([^)]*\)\s*in\s+candidates\s*\{", gc))
-    if len(lm) != 1:
-        die(f"collect_garbage: expected exactly one `for (..) in candidates` loop, found {len(lm)}")
-    lb = gc.index("{", lm[0].end() - 1)
-    loop = gc[lb + 1:match_close(gc, lb)]
-    loop_off = lb + 1
-    RECHECK = r"\b(is_referenced\w*|fetch_meta_bytes|load_meta|\w*referenc\w*)\s*\("
-    g_if = loop_off + pos(loop, r"\bis_in_flight\s*\(", "is_in_flight in the candidate loop of collect_garbage")
-    rm = re.search(RECHECK, loop)
+    gc = body_of(side, "collect_garbage")
+    floor = pos(gc, r"\bSystemTime\s*::\s*now\s*\(|\bunix_ms\s*\(", "the floor timestamp (SystemTime::now) in collect_garbage")
+    lists = [(s, first_arg(gc, op)) for s, op in calls(gc, "list")]
+    marks = [s for s, a in lists if "meta_prefix" in made_by(gc, a, s) or "meta_prefix" in a]
+    sweeps = [s for s, a in lists if "gen_prefix" in made_by(gc, a, s) or "gen_prefix" in a]
+    if not marks:
+        die("marker `list(meta_prefix) in collect_garbage` not found")
+    if not sweeps:
+        die("marker `list(gen_prefix) in collect_garbage` not found")
+    mark, sweep = min(marks), min(sweeps)
+    inflight = pos(gc, r"\bis_in_flight\s*\(", "is_in_flight in collect_garbage")
+    l0, l1 = enclosing_loop(gc, inflight, "collect_garbage: the in-flight check")
+    loop = gc[l0:l1]
+    g_if = l0 + pos(loop, r"\bis_in_flight\s*\(", "is_in_flight")
+    rm = re.search(r"\b(?:fetch_meta_bytes|load_meta)\s*\(", loop)
     if not rm:
-        die("collect_garbage: no re-read of the commit point (is_referenced / fetch_meta_bytes) in the candidate loop")
-    g_re = loop_off + rm.start()
-    g_del = loop_off + pos(loop, r"\.delete\s*\(\s*&\s*full_path", "delete(&full_path) in the candidate loop of collect_garbage")
+        die("collect_garbage: no re-read of the commit point from the backend (fetch_meta_bytes / load_meta) in the candidate loop")
+    g_re = l0 + rm.start()
+    dl = calls(loop, "delete")
+    if not dl:
+        die("marker `store.delete(..) in the candidate loop of collect_garbage` not found")
+    g_del = l0 + dl[0][0]
     gc_candidate = order_names([("inFlight", g_if), ("recheck", g_re), ("delete", g_del)], "collect_garbage candidate loop")
     # is the commit point re-read for every candidate, or once per key (answer remembered in a map
-    # keyed by the location and consulted before the backend read)?
-    LOOKUP = r"\.\s*(get|get_mut|entry|contains_key|get_or_insert_with)\s*\(\s*&?\s*\(?\s*location\b"
-    depth = loop[:rm.start()].count("{") - loop[:rm.start()].count("}")
-    isref = fn_in(side_impl, "is_referenced", "impl SidecarStore") if re.search(r"\bfn\s+is_referenced\b", side_impl) else ""
-    isref_fetch = re.search(r"\bfetch_meta_bytes\s*\(|\bload_meta\s*\(", isref)
-    memo_in_helper = bool(isref) and bool(isref_fetch) and re.search(LOOKUP, isref[:isref_fetch.start()]) is not None
-    memo_in_loop = re.search(LOOKUP, loop) is not None
-    if depth == 0 and not memo_in_loop and not memo_in_helper:
-        if rm.group(1).startswith("is_referenced") and not isref_fetch:
-            die("is_referenced no longer reads the commit point from the backend (fetch_meta_bytes / load_meta)")
+    # that is consulted before the backend read)?
+    lookups = [m for m in re.finditer(r"\.\s*(contains_key|get_mut|entry|get_or_insert_with|or_insert_with|get)\s*\(", loop[:dl[0][0]])
+               if not re.search(r"\bstore\s*$", loop[:m.start()])]
+    nested = brace_depth(loop[:rm.start()])
+    if nested == 0 and not lookups:
         gc_recheck_per_candidate = True
-    elif memo_in_loop or memo_in_helper:
+    elif lookups:
         gc_recheck_per_candidate = False
     else:
-        die("collect_garbage: cannot tell whether the commit point is re-read per candidate or per key (re-read is nested but no lookup keyed by `location` found)")
+        die("collect_garbage: cannot tell whether the commit point is re-read per candidate or per key (the re-read is conditional but no map lookup found)")
     gc_mark_first = floor < mark < sweep < min(g_if, g_re, g_del)
-    gc_floor_skip = re.search(r"\bts\s*>=\s*floor_ms\b", gc) is not None
+    # generations minted at or after the floor are skipped: `<ts> >= <floor>` guards a `continue`
+    floor_vars = {n for _, ns, e, _, _ in lets(gc) if re.search(r"\bSystemTime\s*::\s*now\s*\(|\bunix_ms\s*\(", e) for n in ns}
+    if not floor_vars:
+        die("collect_garbage: the floor timestamp is not bound to a local")
+    fv = "(?:" + "|".join(map(re.escape, sorted(floor_vars))) + ")"
+    skip = [m for m in re.finditer(r"\b\w+\s*>=\s*" + fv + r"\b|\b" + fv + r"\s*<=\s*\w+", gc) if m.start() > sweep]
+    keep = [m for m in re.finditer(r"\b\w+\s*<\s*" + fv + r"\b|\b" + fv + r"\s*>\s*\w+", gc) if m.start() > sweep]
+    gc_floor_skip = False
+    for m in skip:
+        b = gc.find("{", m.end())
+        if b >= 0 and re.search(r"\bcontinue\b|\breturn\b", gc[b:match_close(gc, b)]) and not re.search(r"[;}]", gc[m.end():b]):
+            gc_floor_skip = True
+    for m in keep:
+        b = gc.find("{", m.end())
+        if b >= 0 and not re.search(r"[;}]", gc[m.end():b]):
+            blk = gc[b:match_close(gc, b)]
+            rest = gc[match_close(gc, b) + 1:]
+            if re.search(r"\.\s*push\s*\(", blk) or re.match(r"\s*else\s*\{\s*continue\b", rest):
+                gc_floor_skip = True
 
     # ---- wrappers --------------------------------------------------------------------------
     wrappers = {}
-    for name, src, impl_re, up_re in (
-        ("metaStore", lib, r"impl\s*<\s*T\s*:\s*ObjectStore\s*>\s*ObjectStore\s+for\s+MetaStore\s*<\s*T\s*>\s*\{",
-         r"impl\s*<\s*T\s*:\s*ObjectStore\s*>\s*MultipartUpload\s+for\s+MetaStoreUploader\s*<\s*T\s*>\s*\{"),
-        ("encrypted", enc, r"impl\s*<\s*T\s*:\s*ObjectStore\s*>\s*ObjectStore\s+for\s+EncryptedStore\s*<\s*T\s*>\s*\{",
-         r"impl\s*<\s*T\s*:\s*ObjectStore\s*>\s*MultipartUpload\s+for\s+EncryptedStoreUploader\s*<\s*T\s*>\s*\{"),
-    ):
-        impl = block_after(src, impl_re, f"impl ObjectStore for {name}")
-        up = block_after(src, up_re, f"impl MultipartUpload for {name} uploader")
-        put = fn_in(impl, "put_opts", f"impl ObjectStore for {name}")
-        put_order = commit_order(put, r"\.put_opts\s*\(\s*&\s*gen_path\b", "store.put_opts(&gen_path, ..)", f"{name}::put_opts")
-        # in-flight registration: minted + registered before update_meta_with, bound to a named guard
-        t = re.search(r"let\s+(\w+)\s*=\s*self\s*\.\s*inner\s*\.\s*track_in_flight\s*\(", put)
-        if not t:
-            die(f"{name}::put_opts: `let <guard> = self.inner.track_in_flight(..)` not found")
+    for name, file in (("metaStore", lib), ("encrypted", enc)):
+        # put_opts
+        put = body_of(file, "put_opts")
+        sites = [s for s, op in calls(put, "put_opts") if {"generation_path", "payload_path"} & made_by(put, first_arg(put, op), s)]
+        stray = [s for s, op in calls(put, "put_opts") if not {"generation_path", "payload_path"} & made_by(put, first_arg(put, op), s)]
+        if stray:
+            die(f"{name}::put_opts: a backend put whose target is not made by generation_path(..)")
+        put_order, c0, c1 = commit_order(um_order, put, sites, "store.put_opts(<generation_path(..)>, ..)", f"{name}::put_opts")
         um_call = pos(put, r"\bupdate_meta_with\s*\(", f"update_meta_with in {name}::put_opts")
         gen_p = pos(put, r"\bnew_generation\s*\(", f"new_generation in {name}::put_opts")
-        track_first = gen_p < t.start() < um_call
-        guard_held = t.group(1) != "_" and re.search(r"\bdrop\s*\(\s*" + re.escape(t.group(1)) + r"\s*\)", put) is None
+        t_p, _, guard_held = guard_of(put, f"{name}::put_opts")
+        track_first = gen_p < t_p < um_call
+        # no successful exit of the closure before the payload write
+        pay_in_closure = [s for s in sites if c0 <= s < c1]
+        early_ok = pay_in_closure and re.search(r"\breturn\s+Ok\s*\(", strip_expansions(put[c0:pay_in_closure[0]])) is not None
+        put_fresh = bool(pay_in_closure) and not early_ok
         # multipart
-        comp = fn_in(up, "complete", f"impl MultipartUpload for {name} uploader")
-        complete_order = commit_order(comp, r"\binner\s*\.\s*complete\s*\(", "inner.complete()", f"{name} uploader complete")
-        mp = fn_in(impl, "put_multipart_opts", f"impl ObjectStore for {name}")
-        mt = re.search(r"let\s+(\w+)\s*=\s*self\s*\.\s*inner\s*\.\s*track_in_flight\s*\(", mp)
-        mp_open = pos(mp, r"\.put_multipart_opts\s*\(", f"store.put_multipart_opts in {name}::put_multipart_opts")
-        if not mt:
-            die(f"{name}::put_multipart_opts: in-flight registration not found")
-        mp_track_first = mt.start() < mp_open and re.search(r"\b_in_flight\s*:\s*" + re.escape(mt.group(1)) + r"\b|\b_in_flight\s*,", mp) is not None
+        comp = body_of(file, "complete")
+        csites = [s for s, _ in calls(comp, "complete")]
+        complete_order, _, _ = commit_order(um_order, comp, csites, "inner.complete()", f"{name} uploader complete")
+        mp = body_of(file, "put_multipart_opts")
+        mp_open = calls(mp, "put_multipart_opts")
+        if not mp_open:
+            die(f"marker `store.put_multipart_opts in {name}::put_multipart_opts` not found")
+        if not {"generation_path", "payload_path"} & made_by(mp, first_arg(mp, mp_open[0][1]), mp_open[0][0]):
+            die(f"{name}::put_multipart_opts: the upload target is not made by generation_path(..)")
+        mt_p, mt_names, mt_held = guard_of(mp, f"{name}::put_multipart_opts")
+        # the guard must move into the uploader (a field initialiser of a struct literal)
+        stored = any(re.search(r"\b\w+\s*:\s*" + re.escape(g) + r"\s*[,}]|[{,]\s*" + re.escape(g) + r"\s*[,}]", mp) for g in mt_names)
+        mp_gen = pos(mp, r"\bnew_generation\s*\(", f"new_generation in {name}::put_multipart_opts")
+        mp_track_first = mp_gen < mt_p < mp_open[0][0] and mt_held and stored
         # copy
-        cpy = fn_in(impl, "copy_opts", f"impl ObjectStore for {name}")
-        copy_order = commit_order(cpy, r"\bcopy_payload\s*\(", "copy_payload(..)", f"{name}::copy_opts")
-        cg = re.search(r"let\s*\(\s*\w+\s*,\s*\w+\s*,\s*(\w+)\s*\)\s*=\s*self\s*\.\s*inner\s*\.\s*copy_payload", cpy)
-        if not cg:
+        cpy = body_of(file, "copy_opts")
+        cps = [m.start() for m in re.finditer(r"\bcopy_payload\s*\(", cpy)]
+        copy_order, _, _ = commit_order(um_order, cpy, cps, "copy_payload(..)", f"{name}::copy_opts")
+        pm = re.search(r"\blet\s*\(([^()=]*)\)\s*=[^;]*?\bcopy_payload\s*\(", cpy, re.S)
+        if not pm:
             die(f"{name}::copy_opts: `let (src, generation, <guard>) = self.inner.copy_payload(..)` not found")
-        copy_guard_held = cg.group(1) != "_"
+        comps = [c.strip() for c in split_top(pm.group(1))]
+        if len(comps) != cp_arity:
+            die(f"{name}::copy_opts: the tuple pattern bound to copy_payload(..) has {len(comps)} components, copy_payload returns {cp_arity}")
+        copy_guard_held = re.fullmatch(r"(?:mut\s+)?[a-z_]\w*", comps[cp_guard_i]) is not None and comps[cp_guard_i] != "_" \
+            and not re.search(r"\bdrop\s*\(\s*" + re.escape(comps[cp_guard_i]) + r"\s*\)", cpy)
+        copy_gen_var = re.sub(r"^mut\s+", "", comps[cp_gen_i])
+        copy_seeded_here = re.fullmatch(r"[a-z_]\w*", copy_gen_var) is not None and copy_gen_var != "_" \
+            and hashes_seed(cpy, seeds=[copy_gen_var], sources=[])
         # rename
-        ren = fn_in(impl, "rename_opts", f"impl ObjectStore for {name}")
+        renf = file.fn("rename_opts")
+        ren = body_of(file, "rename_opts")
         r_copy = pos(ren, r"\bself\s*\.\s*copy_opts\s*\(", f"self.copy_opts in {name}::rename_opts")
         r_del = pos(ren, r"\bdelete_object\s*\(", f"delete_object in {name}::rename_opts")
         rename_order = order_names([("copy", r_copy), ("deleteSource", r_del)], f"{name}::rename_opts")
-        self_rename = re.search(r"if\s+from\s*==\s*to\b", ren) is not None and pos(ren, r"if\s+from\s*==\s*to\b", "x") < r_copy
+        pnames = [p for p, _ in renf.params if p]
+        if len(pnames) < 2:
+            die(f"{name}::rename_opts: cannot read the parameter names")
+        a, b = re.escape(pnames[0]), re.escape(pnames[1])
+        sr = re.search(r"\bif\s+(?:" + a + r"\s*==\s*" + b + r"|" + b + r"\s*==\s*" + a + r")\b", ren)
+        self_rename = sr is not None and sr.start() < r_copy and \
+            re.search(r"\breturn\b", ren[sr.end():match_close(ren, ren.index("{", sr.end()))]) is not None
         # get_opts: are the read preconditions evaluated inside the stale-pointer retry loop, on the
         # document resolved in that iteration (get_meta / check_get_preconditions per iteration,
         # refresh_meta's answer not carried over)?
-        getf = fn_in(impl, "get_opts", f"impl ObjectStore for {name}")
-        glm = re.search(r"\bloop\s*\{", getf)
-        if not glm:
-            die(f"{name}::get_opts: the retry `loop` is gone")
-        glb = getf.index("{", glm.end() - 1)
-        gloop = getf[glb + 1:match_close(getf, glb)]
-        gbefore = getf[:glb]
-        if not re.search(r"\brefresh_meta\s*\(", gloop):
-            die(f"{name}::get_opts: no refresh_meta in the retry loop (stale-pointer retry gone)")
+        getf = body_of(file, "get_opts")
+        rf = pos(getf, r"\brefresh_meta\s*\(", f"refresh_meta in {name}::get_opts (stale-pointer retry)")
+        g0, g1 = enclosing_loop(getf, rf, f"{name}::get_opts: refresh_meta (the stale-pointer retry)")
+        gloop, gbefore = getf[g0:g1], getf[:g0]
         chk = re.search(r"\bcheck_get_preconditions\s*\(", gloop)
         chk_before = re.search(r"\bcheck_get_preconditions\s*\(", gbefore)
         if not chk and not chk_before:
             die(f"{name}::get_opts: check_get_preconditions is not called")
-        chk_depth = (gloop[:chk.start()].count("{") - gloop[:chk.start()].count("}")) if chk else -1
+        chk_depth = brace_depth(gloop[:chk.start()]) if chk else -1
         meta_in_loop = re.search(r"\bget_meta\s*\(", gloop) is not None
-        refresh_bound = re.search(r"=\s*self\s*\.\s*inner\s*\.\s*refresh_meta\s*\(", gloop) is not None
-        get_recheck = bool(chk) and chk_depth == 0 and meta_in_loop and not chk_before and not refresh_bound
-        # e_tag recipes
-        if name == "metaStore":
-            put_seeded = re.search(r"hasher\s*\.\s*update\s*\(\s*generation\s*\.\s*as_bytes\s*\(\s*\)\s*\)", put) is not None
-            mp_seeded = re.search(r"hasher\s*\.\s*update\s*\(\s*generation\s*\.\s*as_bytes\s*\(\s*\)\s*\)", mp) is not None
-        else:
-            put_seeded = re.search(r"hasher\s*\.\s*update\s*\(\s*base_nonce\s*\)", put) is not None and re.search(r"base_nonce\s*:\s*\[u8;\s*12\]\s*=\s*rand_bytes\s*\(", put) is not None
-            mp_seeded = re.search(r"hasher\s*\.\s*update\s*\(\s*aes_nonce\s*\)", mp) is not None and re.search(r"aes_nonce\s*:\s*\[u8;\s*12\]\s*=\s*rand_bytes\s*\(", mp) is not None
-        copy_uses_derive = re.search(r"derive_copy_e_tag\s*\(\s*&\s*generation\b", cpy) is not None
+        refresh_bound = re.search(r"(?<![=!<>])=(?![=>])\s*[\w\s.&*]*\brefresh_meta\s*\(", gloop) is not None
+        get_recheck = bool(chk) and chk_depth == 0 and meta_in_loop and not chk_before and not refresh_bound \
+            and re.search(r"\bget_meta\s*\(", gloop).start() < chk.start()
+        # e_tag recipes: the hasher is fed a value computed from the fresh generation / a fresh random nonce
+        put_seeded = hashes_seed(put)
+        mp_seeded = hashes_seed(mp)
         wrappers[name] = dict(put=put_order, complete=complete_order, copy=copy_order, rename=rename_order,
                               track=track_first and mp_track_first and copy_track_first,
                               held=guard_held and copy_guard_held, put_seeded=put_seeded, mp_seeded=mp_seeded,
-                              copy_derive=copy_uses_derive, self_rename=self_rename, get_recheck=get_recheck)
+                              copy_seeded=copy_seeded_here, self_rename=self_rename, get_recheck=get_recheck,
+                              put_fresh=put_fresh)
 
-    # derive_copy_e_tag
-    dce = fn_in(lib, "derive_copy_e_tag", "lib.rs")
-    dce_gen = pos(dce, r"hasher\s*\.\s*update\s*\(\s*generation\s*\.\s*as_bytes", "generation in derive_copy_e_tag", required=False)
-    copy_seeded = dce_gen is not None and all(w["copy_derive"] for w in wrappers.values())
+    copy_seeded = all(w["copy_seeded"] for w in wrappers.values())
 
     def per_wrapper(field, f):
         return "\n".join(f"  | .{n} => {f(wrappers[n][field])}" for n in ("metaStore", "encrypted"))
@@ -399,8 +843,14 @@ def putTagSeeded : Wrapper → Bool
 def completeTagSeeded : Wrapper → Bool
 {per_wrapper("mp_seeded", lean_bool)}
 
-/-- `derive_copy_e_tag` hashes the fresh generation, and both `copy_opts` use it -/
+/-- the e_tag of a copy hashes the fresh generation of the target (both `copy_opts`, through
+`derive_copy_e_tag`) -/
 def copyTagSeeded : Bool := {lean_bool(copy_seeded)}
+
+/-- `put_opts`: the commit closure has no successful exit before the payload write — every put that
+succeeds writes a fresh generation and commits it (no "unchanged, keep the current commit" path) -/
+def putFreshCommit : Wrapper → Bool
+{per_wrapper("put_fresh", lean_bool)}
 
 end AndaVerif.Gen.SidecarOrder
 """
@@ -428,6 +878,7 @@ theorem gen_guard_held : ∀ w, guardHeld w = true := by intro w; cases w <;> de
 theorem gen_put_tag_seeded : ∀ w, putTagSeeded w = true := by intro w; cases w <;> decide
 theorem gen_complete_tag_seeded : ∀ w, completeTagSeeded w = true := by intro w; cases w <;> decide
 theorem gen_copy_tag_seeded : copyTagSeeded = true := by decide
+theorem gen_put_fresh_commit : ∀ w, putFreshCommit w = true := by intro w; cases w <;> decide
 
 end AndaVerif.Gen.SidecarOrder
 """
